@@ -81,6 +81,23 @@ func genPeer(t *rapid.T, s kit.Schema, allTrue bool) peerSpec {
 			flag("modify", p.Modify, sel)
 			req["select"] = sel
 		}
+		// a conditional monitor may come with a where clause (libovsdb's server serves every
+		// row whatever it says): two conditions of which every row satisfies exactly one, on a
+		// column that need not be among the selected ones
+		if p.Method != "monitor" && !allTrue && rapid.IntRange(0, 2).Draw(t, "where?") == 0 {
+			var cands []kit.Col
+			for _, c := range tb.Cols {
+				if c.Shape() == kit.ShScalar && len(c.Key.Enum) == 0 && (c.Key.T == kit.TInt || c.Key.T == kit.TStr || c.Key.T == kit.TBool) {
+					cands = append(cands, c)
+				}
+			}
+			if len(cands) > 0 {
+				c := cands[rapid.IntRange(0, len(cands)-1).Draw(t, "wherecol")]
+				v := kit.AtomWire(kit.ZeroAtom(c.Key.T))
+				req["where"] = []interface{}{[]interface{}{c.Name, "==", v}, []interface{}{c.Name, "!=", v}}
+				kit.Label("C07", "monitor-request-with-where")
+			}
+		}
 		p.Request[tn] = req
 	}
 	return p
